@@ -161,6 +161,19 @@ func (r *runner) lifeOpenGuards() {
 			return
 		}
 	}
+	// the same at the level of the real file storage: a read-only OpenFile
+	// of a path that does not exist fails and creates nothing
+	if tmp, err := os.MkdirTemp("", "verif-rofs-"); err == nil {
+		path := filepath.Join(tmp, "missing", "db")
+		if stor, err := storage.OpenFile(path, true); err == nil {
+			stor.Close()
+			r.viol("readonly", "readonly:empty-open-succeeded", "read-only OpenFile of a missing directory succeeded")
+		}
+		if ents, _ := os.ReadDir(tmp); len(ents) != 0 {
+			r.viol("readonly", "readonly:empty-open-created", fmt.Sprintf("read-only OpenFile of a missing directory created %q", ents[0].Name()))
+		}
+		os.RemoveAll(tmp)
+	}
 	me := simrt.Cur().ID
 	before := r.mutBy[me]
 	o := r.knobs.Options()
